@@ -809,9 +809,9 @@ func (s *Stream) handleData(off int64, b []byte, fin bool) error {
 	if err := s.checkStreamBounds(end, fin); err != nil {
 		return err
 	}
-	if s.inclosed.isSet() || s.inresetcode != -1 {
-		// The user read-closed the stream, or the peer reset it.
-		// Either way, we can discard this frame.
+	if s.inresetcode != -1 {
+		// The peer reset the stream. We can discard this frame;
+		// the stream's final size has been accounted for.
 		return nil
 	}
 	if s.insize == -1 && end > s.in.end {
@@ -819,6 +819,18 @@ func (s *Stream) handleData(off int64, b []byte, fin bool) error {
 		if err := s.conn.handleStreamBytesReceived(added); err != nil {
 			return err
 		}
+		if s.inclosed.isSet() {
+			// The user read-closed the stream and the data is discarded,
+			// but it still counts against the connection-level limit
+			// we advertised. Record the new highest offset and return
+			// the credit right away.
+			s.in.discardBefore(end)
+			s.conn.handleStreamBytesReadOnLoop(added)
+		}
+	}
+	if s.inclosed.isSet() {
+		// The user read-closed the stream. We can discard this frame.
+		return nil
 	}
 	if len(s.inset) > 0 && s.inset[0].contains(off) {
 		// We've received at least some of this data,
